@@ -762,10 +762,58 @@ set_option linter.unusedVariables false
 """
 
 
+def const_value(docs, name, lookup):
+    """numeric value of a `static const T name = <literal | other constant | -literal>` or enum constant"""
+    found = []
+    def walk(n):
+        if n.get("kind") in ("VarDecl", "EnumConstantDecl") and n.get("name") == name and n.get("inner"):
+            found.append(n)
+        for c in n.get("inner", []):
+            if isinstance(c, dict): walk(c)
+    for d in docs: walk(d)
+    def ev(n):
+        k = n.get("kind")
+        if k in ("ImplicitCastExpr", "ParenExpr", "ConstantExpr", "CStyleCastExpr", "CXXStaticCastExpr"): return ev(n["inner"][0])
+        if k == "IntegerLiteral": return int(n["value"])
+        if k == "FloatingLiteral": return float(n["value"])
+        if k == "UnaryOperator" and n.get("opcode") == "-": return -ev(n["inner"][0])
+        if k == "DeclRefExpr": return lookup(n["referencedDecl"]["name"])
+        raise Unsupported("constant %s: initialiser kind %s" % (name, k))
+    for n in found:
+        inner = [c for c in n["inner"] if isinstance(c, dict) and c.get("kind") not in ("FullComment",)]
+        if inner:
+            return ev(inner[-1])
+    raise Unsupported("constant %s: no definition with initialiser found" % name)
+
+
+def resolve_constants(job, src, incl):
+    """job['auto_constants'] = {name: lean type}: values are read from the C++ source, not hard-coded"""
+    names = job.get("auto_constants", {})
+    if not names: return
+    cache = {}
+    def lookup(nm):
+        if nm not in cache:
+            cache[nm] = const_value(clang_ast(src, nm, incl), nm, lookup)
+        return cache[nm]
+    consts = dict(job.get("constants", {})); enums = dict(job.get("enums", {}))
+    for nm, lt in names.items():
+        v = lookup(nm)
+        if lt in ("Nat", "Int"):
+            if v != int(v) or (lt == "Nat" and v < 0): raise Unsupported("constant %s = %r is not a %s" % (nm, v, lt))
+            txt = "(%d : %s)" % (int(v), lt)
+        else:
+            f = float(v); n_, d_ = f.as_integer_ratio()
+            txt = "(%d : Rat)" % n_ if d_ == 1 else "(%d / %d : Rat)" % (n_, d_)
+        consts[nm] = (txt, lt); enums[nm] = (txt, lt)
+    job["constants"], job["enums"] = consts, enums
+
+
 def run_job(job, repo):
     """job: dict(src=relative path, functions=[...], ns=..., out=path, imports=[...], opens=[...])"""
     src = str(repo / job["src"])
     incl = str(repo / "cola")
+    job = dict(job)
+    resolve_constants(job, src, incl)
     with ThreadPoolExecutor(16) as ex:
         asts = list(ex.map(lambda fn: clang_ast(src, job.get("filters", {}).get(fn, fn), incl), job["functions"]))
     known, text = dict(job.get("known", {})), ""
